@@ -92,7 +92,10 @@ int vrt_pthread_sigmask(int how, const sigset_t *set, sigset_t *old);
 int vrt_sched_getcpu(void);
 int vrt_usleep(unsigned us);
 unsigned vrt_sleep(unsigned s);
-void vrt_set_cpu(int cpu);		/* model CPU of the calling thread (environment input) */
+void vrt_set_cpu(int cpu);
+pid_t vrt_fork(void);			/* fork from a model thread (C16); child: only the caller survives, trace goes to <trace>.child */
+int vrt_is_child(void);
+int vrt_wait_child(pid_t pid);		/* exit status of the child (3 = an oracle failed there) */		/* model CPU of the calling thread (environment input) */
 
 extern long vrt_nevents;
 extern int vrt_tso;
